@@ -134,4 +134,60 @@ theorem pollEvent_matches_source (cfg : Cfg) (s : St) (e : Event) :
           · simp only [h1, h2, if_false, if_true]; rfl
           · simp [h1, h2]
 
+/-! ### control structure regenerated as decision trees (`"kind": "tree"`)
+
+Which exit is reached under which conditions, in which order the conditions are tested, and what
+each `return` returns are read off the source on every run.  Not covered by a tree: the body of the
+event loop in `checkEvents` — it tests two different variables both named `ok` (`_, ok :=
+c.visited.Get(…)` and `v, ok := c.cache.Get(…)`), which the translator maps to ONE parameter; its
+order of tests stays asserted by `pollEvent_matches_source` only.  `Cache.Set` has no exit to tie. -/
+
+/-- **`Accept` is the source's decision tree**: the answer is the value returned at the exit the tree
+takes, and the record is (re)written exactly at the two `return true` exits, for every state -/
+theorem accept_tree_matches_source (cfg : Cfg) (s : St) (w : String) (b : Nat) :
+    let found := (s.cache.get w s.now).isSome
+    let awaited := (s.cache.get w s.now).get!.checkBlock
+    let exit := Gen.Src.c06AcceptTree found awaited b
+    (accept cfg s w b).2 = Gen.Src.c06AcceptTreeVal found awaited b exit ∧
+    (accept cfg s w b).1 =
+      (if exit = 1 ∨ exit = 2 then { s with cache := s.cache.set cfg.window w (acceptRec b) 0 s.now } else s) := by
+  unfold accept
+  cases s.cache.get w s.now with
+  | none => simp [Gen.Src.c06AcceptTree, Gen.Src.c06AcceptTreeVal]
+  | some v =>
+    by_cases h : v.checkBlock < b <;> simp [Gen.Src.c06AcceptTree, Gen.Src.c06AcceptTreeVal, h]
+
+/-- **`ShouldTransmit` is the source's decision tree** (four exits, `v.isTransmissionPending` returned at the third) -/
+theorem shouldTransmit_tree_matches_source (s : St) (w : String) (b : Nat) :
+    let found := (s.cache.get w s.now).isSome
+    let v := (s.cache.get w s.now).get!
+    shouldTransmit s w b =
+      Gen.Src.c06ShouldTransmitTreeVal found b v.checkBlock v.pending
+        (Gen.Src.c06ShouldTransmitTree found b v.checkBlock v.pending) := by
+  unfold shouldTransmit
+  cases s.cache.get w s.now with
+  | none => simp [Gen.Src.c06ShouldTransmitTree, Gen.Src.c06ShouldTransmitTreeVal]
+  | some v =>
+    by_cases h1 : b < v.checkBlock <;> by_cases h2 : b = v.checkBlock <;>
+      simp [Gen.Src.c06ShouldTransmitTree, Gen.Src.c06ShouldTransmitTreeVal, h1, h2]
+
+/-- what `Cache.Get` returns at each exit of its tree: 1 = `getZero, false` (absent), 2 = `getZero, false`
+(expired), 3 = `value.Item, true` -/
+private def cacheGetOutcome {α : Type} (item : Option α) : Nat → Option α
+  | 3 => item
+  | _ => none
+
+/-- **`Cache.Get` is the source's decision tree**: absent → miss; `Expires > 0` and `now > Expires`
+(nested in that order) → miss; otherwise the item -/
+theorem cacheGet_tree_matches_source {α : Type} (c : Cache α) (k : String) (now : Nat) :
+    c.get k now = cacheGetOutcome ((c k).map (·.1))
+      (Gen.Src.c06CacheGetTree (c k).isSome ((c k).map (·.2)).get! now) := by
+  unfold Cache.get
+  cases h : c k with
+  | none => simp [Gen.Src.c06CacheGetTree, cacheGetOutcome]
+  | some p =>
+    obtain ⟨v, e⟩ := p
+    by_cases h1 : e > 0 <;> by_cases h2 : now > e <;>
+      simp [Gen.Src.c06CacheGetTree, cacheGetOutcome, expired, h1, h2]
+
 end AutoVerif.C06
